@@ -15,7 +15,7 @@ Qed.
 Lemma step_c_inner v s e s' :
   step_c v s e = Some s' -> exists res, run_r v (inner s) res = Some (inner s').
 Proof.
-  intro H. destruct e; cbn [step_c] in H;
+  intro H. destruct e; cbn [step_c step_c_gen step_c_gen] in H;
     try (exists []; crunch H;
          repeat match type of H with
                 | context [match ?x with _ => _ end] => destruct x; try discriminate
@@ -202,11 +202,11 @@ Proof.
         apply (ci_nograce _ _ _ _ H eq_refl). rewrite E. apply in_or_app. left.
         apply in_map. exact Hp. }
       rewrite Hn in Ed. discriminate.
-    + intros s' Hs. cbn [step_c] in Hs. destruct (find_fatal_running (c_procs s) 0); try discriminate.
+    + intros s' Hs. cbn [step_c step_c_gen step_c_gen] in Hs. destruct (find_fatal_running (c_procs s) 0); try discriminate.
       destruct (timer_fired s); inv Hs. reflexivity.
   - destruct (ci_j3 _ _ _ _ H Ed) as [H1 H2]. rewrite H1. split; [lia|]. split; [discriminate|].
     split; [discriminate|]. split; [auto|].
-    intros s' Hs. cbn [step_c] in Hs. destruct (find_fatal_running (c_procs s) 0); try discriminate.
+    intros s' Hs. cbn [step_c step_c_gen step_c_gen] in Hs. destruct (find_fatal_running (c_procs s) 0); try discriminate.
     destruct (timer_fired s); inv Hs. reflexivity.
 Qed.
 
@@ -238,7 +238,7 @@ Lemma step_pc_idle v s e s' :
   c_pc s = CIdle -> c_running s = true -> step_c v s e = Some s' ->
   c_pc s' = CIdle /\ c_running s' = true.
 Proof.
-  intros Hpc Hr H. destruct e; cbn [step_c] in H; rewrite ?Hpc, ?Hr in H; try discriminate;
+  intros Hpc Hr H. destruct e; cbn [step_c step_c_gen step_c_gen] in H; rewrite ?Hpc, ?Hr in H; try discriminate;
     crunch H;
     repeat match type of H with
            | context [match ?x with _ => _ end] => destruct x; try discriminate
@@ -292,7 +292,7 @@ Proof.
       split.
       { intros c e Hc. destruct (ci_kret _ _ _ _ H c e Hc) as [_ ->].
         apply (ci_reterr _ _ _ _ H). rewrite Hpc. cbn. tauto. }
-      cbn [step_c]. rewrite Hr. eexists. split; [reflexivity|]. cbn. auto.
+      cbn [step_c step_c_gen step_c_gen]. rewrite Hr. eexists. split; [reflexivity|]. cbn. auto.
     + destruct (step_c v s e) as [s1|] eqn:E; try discriminate.
       destruct (step_pc_idle _ _ _ _ Hpc Hr E) as [Hpc1 Hr1].
       apply (IH s1); auto. eapply cinv_step; eauto.
@@ -318,7 +318,7 @@ Proof. eexists. split; [vm_compute; reflexivity|]. split; reflexivity. Qed.
 Lemma cm_add_after_start_refused : forall v grace bs cls es s b,
   run_c v (new_cm grace bs cls) es = Some s -> c_running s = true ->
   step_c v s (CAddCheck b) = Some (w_cadds s (cadds s ++ [CARefused])).
-Proof. intros v grace bs cls es s b _ Hr. cbn [step_c]. rewrite Hr. reflexivity. Qed.
+Proof. intros v grace bs cls es s b _ Hr. cbn [step_c step_c_gen step_c_gen]. rewrite Hr. reflexivity. Qed.
 
 (* before the start (nobody has called Run or Close) Add goes through: the runner is appended to
    the inner manager's slice and the call returns nil *)
@@ -346,8 +346,8 @@ Proof.
   destruct (ci_notrun _ _ _ _ H Hr) as [Hpc _].
   destruct (ci_inner_idle _ _ _ _ H ltac:(rewrite Hpc; exact Logic.I)) as [_ Hir].
   destruct (rm_add_before_start v (inner s) b Hir) as [x1 [x2 [E1 [E2 [Hrun Hadd]]]]].
-  cbn [step_c]. rewrite Hr, E1. eexists. eexists. split; [reflexivity|].
-  cbn [step_c cadds w_cadds w_inner inner]. rewrite nth_error_app_len.
+  cbn [step_c step_c_gen step_c_gen]. rewrite Hr, E1. eexists. eexists. split; [reflexivity|].
+  cbn [step_c step_c_gen cadds w_cadds w_inner inner]. rewrite nth_error_app_len.
   unfold lock_held. cbn [c_pc w_cadds w_inner]. rewrite Hpc. rewrite E2.
   split; [reflexivity|]. cbn [inner w_inner]. auto.
 Qed.
@@ -453,7 +453,7 @@ Qed.
 Lemma winv_step grace bs s e s' :
   cinv Fixed grace bs s -> winv s -> calm s = true -> step_c Fixed s e = Some s' -> winv s'.
 Proof.
-  intros Ci W Hcalm H. destruct e; cbn [step_c] in H.
+  intros Ci W Hcalm H. destruct e; cbn [step_c step_c_gen step_c_gen] in H.
   - (* CRunCas *)
     destruct W as [W1 W2]. destruct (c_running s) eqn:Er; inv H; unfold winv; cbn; auto.
     split; [discriminate | tauto].
@@ -560,7 +560,7 @@ Proof.
   - exfalso. apply Hne. rewrite E in Hw. destruct (r_procs (inner s)); [reflexivity|discriminate].
   - rewrite E in Hw. apply in_map_iff in Hw. destruct Hw as [p [Hb Hp]].
     destruct (In_nth_error _ _ Hp) as [i Hi]. exists i, p. split; [auto|]. split; [auto|].
-    intros Hst Hch. cbn [step_c inner_allowed step_r]. rewrite Hi, Hst.
+    intros Hst Hch. cbn [step_c step_c_gen inner_allowed step_r]. rewrite Hi, Hst.
     unfold may_return. rewrite Hb, Hch, orb_true_r. eauto.
 Qed.
 
